@@ -1402,4 +1402,20 @@ pub mod verif_hooks {
         }
         v
     }
+
+    /// C05: the same for an apply context created on the buffer behind a public `UnicodeBuffer`, whatever
+    /// that buffer was used for before (a recycled buffer must give what a fresh one gives).
+    pub fn random_sequence_on(
+        face: &hb_font_t,
+        buffer: &mut crate::UnicodeBuffer,
+        n: usize,
+    ) -> alloc::vec::Vec<u32> {
+        let mut ctx = hb_ot_apply_context_t::new(TableIndex::GSUB, face, &mut buffer.0);
+        let mut v = alloc::vec::Vec::with_capacity(n + 1);
+        v.push(ctx.random_state);
+        for _ in 0..n {
+            v.push(ctx.random_number());
+        }
+        v
+    }
 }
